@@ -525,3 +525,22 @@ Example opening_example :
      false; true; false; false; false;
      false; false; false; false; false].
 Proof. vm_compute. reflexivity. Qed.
+
+(* ====================================================================== *)
+(* pca: effective rank of the design projection                            *)
+(* ====================================================================== *)
+From NV.C19 Require Import PcaRank.
+
+(* (22) `rank = (SX / SX.max() > tol_ratio).sum()` is a RELATIVE rule: multiplying all singular values
+   by c > 0 (a kept design closer to / farther from the removed span) does not change the component
+   count; an absolute comparison `SX > tol_ratio` does (second statement). *)
+Theorem pca_rank_scale_invariant :
+  forall (tol c : Q) (S : list Q),
+  (0 < c)%Q -> (match S with [] => True | h :: _ => (0 < h)%Q end) ->
+  rank_rel tol (map (Qmult c) S) = rank_rel tol S.
+Proof. exact rank_rel_scale_invariant_proof. Qed.
+Print Assumptions pca_rank_scale_invariant.
+
+Example pca_rank_absolute_rule_differs :
+  rank_rel (1 # 100) [3 # 1000]%Q = 1 /\ rank_abs (1 # 100) [3 # 1000]%Q = 0 /\ rank_abs (1 # 100) [3 # 10]%Q = 1.
+Proof. exact rank_abs_not_scale_invariant_proof. Qed.
